@@ -247,6 +247,15 @@ func c04Spaces(c *fw.Ctx) {
 				}
 			}
 		})
+	c.Space("escaped-name-tails", "5 names whose presentation form holds escapes (a\\.example., first\\.last.example.org., \\000z\\200.example., a\\\\b\\.c.d\\.e.example., www.x\\200\\.y.fresh.zone.) × every name that is a tail of that text cut at any octet (also under 'www'), in 3 message shapes (question then NS; tail first, then SOA and NS both ways; the name only inside RP RDATA, then NS and MX): compression stays transparent and valid; non-trivial: ≥1 pointer", true,
+		func(emit func(func(*fw.R))) {
+			genTails(func(m *wire.Msg, what string) {
+				emit(func(r *fw.R) {
+					c04Check(r, m)
+					r.Sample(func() any { return what })
+				})
+			})
+		})
 	c.Space("accept-pointers", "the same 'pairs' messages encoded by the reference encoder with every name compressed (also in RDATA of non-RFC-1035 types, HIP servers, IPSECKEY/AMTRELAY gateways): Unpack must accept and yield the same names; non-trivial: ≥1 pointer", true,
 		func(emit func(func(*fw.R))) {
 			genPairs(min(nU, 7), func(m *wire.Msg) {
